@@ -546,7 +546,7 @@ func c15SendJoin(c *mon.Ctx, r *gen.Rand, sc *simScenario, b *simBranch) {
 	local := serverIdentity(c15local)
 	names := []string{"membership-join", "state-key-is-sender", "room-matches", "event-id-matches", "sender-of-requesting-server", "origin-signature-valid", "not-banned", "authoriser-local", "type-is-m.room.member"}
 	user := "@joiner:other.example"
-	for _, vec := range guardVectors(r, len(names), 6) {
+	for vi, vec := range guardVectors(r, len(names), 6) {
 		membership := "join"
 		if !vec[0] {
 			membership = gen.Pick(r, []string{"leave", "invite", "knock", ""})
@@ -563,6 +563,18 @@ func c15SendJoin(c *mon.Ctx, r *gen.Rand, sc *simScenario, b *simBranch) {
 		// another server there is never one the local server should put its signature under)
 		if !vec[7] {
 			content.Set("join_authorised_via_users_server", ref.S(gen.Pick(r, []string{"@admin:elsewhere.example", "not a user id"})))
+			// ... next to an optional member of the wrong JSON type (ninth seeding round, C15-R: a lenient reading of the
+			// content that falls back to a partial decode then, and lost the authorising user on the way)
+			switch vi % 5 {
+			case 1:
+				content.Set("displayname", ref.I(5))
+			case 2:
+				content.Set("avatar_url", ref.A())
+			case 3:
+				content.Set("is_direct", ref.S("yes"))
+			case 4:
+				content.Set("reason", ref.O())
+			}
 		} else if s.t.Restricted {
 			content.Set("join_authorised_via_users_server", ref.S("@creator:"+c15local))
 		}
